@@ -159,6 +159,14 @@ Theorem every_turnstone_enqueue_goes_through_the_pick :
 Proof. exact (conj every_enqueue_site_ok (conj (proj1 enqueue_sites_all_decided) direct_queue_puts_are)). Qed.
 Print Assumptions every_turnstone_enqueue_goes_through_the_pick.
 
+(** 7b. The tables the pick reads are store state only: the inventory of every struct field and package
+    variable of the treasury / evm / metrix / consensus keepers (translator, regenerated on every check)
+    equals the reviewed list, which holds no table data (Cons/RelaySysProofs.v).  This is what lets the
+    model read "the tables" from the committed store: nothing survives a discarded store branch. *)
+Theorem no_unreviewed_in_memory_state : Gen.C14.memory_state = reviewed_memory_state.
+Proof. exact memory_state_is_reviewed. Qed.
+Print Assumptions no_unreviewed_in_memory_state.
+
 (** 8. Over every history of the turnstone queue of chain [ch] in which the tables (snapshot, metrics,
     relayer fees, weights, fund fees) change arbitrarily between requests of all five kinds, estimates,
     elections, reports, removals and attested error proofs with their retries: every queued message was
